@@ -36,7 +36,7 @@ def restr_tokens_of(problem, seq0):
 def run_case(desc, op, fault_at=None, pre_ops=()):
     """-> dict(line, answer, info, problem) or dict(skip=reason)"""
     try:
-        p = build_problem(desc, circular=op.startswith("circ"))
+        p = build_problem(desc, circular=op.startswith("circ") or bool(desc.get("circular")))
     except Exception as e:  # constructor errors (unsolvable space, bad parameters) are outside the solver properties
         return dict(skip="%s" % type(e).__name__)
     seq0 = desc["sequence"].upper()
@@ -51,4 +51,7 @@ def run_case(desc, op, fault_at=None, pre_ops=()):
     for i in focus:
         p.constraints[i].is_focus = True
     line, answer, info = solverrec.run_recorded(p, op, seq0, rt, fault_at=fault_at, focus_handles=focus)
-    return dict(line=line, answer=answer, info=info, problem=p)
+    r = dict(line=line, answer=answer, info=info, problem=p)
+    if desc.get("circular") and not op.startswith("circ"):
+        r["no_model"] = True      # direct searches on a circular problem: the views are not modelled, oracle only
+    return r
